@@ -77,7 +77,9 @@ def rule_funnel(ctx, rep):
             allowed = ("Arc", "UniqueArc") if cls == "atomic_new" else ("Arc",)
             if cls == "atomic_other":
                 rep.bad("R-FUNNEL", ik, "the count word is accessed by something other than new/fetch_add/fetch_sub/load (%s): the balance algebra cannot account for it" % (t["resolved"]["def"]), F.loc(b, t["span"]), tag)
-            elif hn in allowed and not trait_ or (hn == "Arc" and trait_ in ("core::clone::Clone", "core::ops::drop::Drop") and cls in ("atomic_add", "atomic_sub")):
+            elif hn in allowed and not trait_ or (hn == "Arc" and trait_ in ("core::clone::Clone", "core::ops::drop::Drop") and cls in ("atomic_add", "atomic_sub")) or (cls == "atomic_add" and trait_ == "core::clone::Clone" and hn in OWNING_HANDLES):
+                # (an owning handle kind may take its reference itself in its own `Clone` - the count word is the same one; that the
+                # increment is guarded against overflow there too is C16's R-OVFGUARD, that it is balanced R-BAL)
                 rep.ok("R-FUNNEL", ik, cfg=tag)
             else:
                 rep.bad("R-FUNNEL", ik, "a %s of the count word lives in %s, outside Arc's own clone/release/constructor code: every handle kind must funnel through Arc's single increment and decrement" % (cls, b["key"]), F.loc(b, t["span"]), tag)
@@ -129,6 +131,22 @@ def rule_destroy(ctx, rep):
                             break
                 if ok:
                     rep.ok("R-DESTROY", ik, "S2", cfg=tag)
+                continue
+            # S3 in place: the function itself observes `count == 1` on its own handle (an acquire load, C02 R-ORD-2) on every path
+            # that frees, without decrementing (`fn take_if_unique(this) { if this.is_unique() { free } else { hand back } }`)
+            from . import c03 as _c03
+
+            G0 = _c03.Gates(F)
+            own_edges = [(x, y) for (x, y, roots, o) in _c03.gate_edges_with_order(F, G0, cfg.Body(b)) if roots]
+            fps = [p for p in A.paths.get(key, []) if vget(p.vec, "free_raw")]
+            def _gate_before_free(p):
+                blocks = list(p.blocks)
+                fe = next((e for e in p.events if vget(e["vec"], "free_raw")), None)
+                upto = blocks.index(fe["bb"]) if fe is not None and fe["bb"] in blocks else len(blocks)
+                return any(blocks[i] == x and blocks[i + 1] == y for i in range(min(upto, len(blocks) - 1)) for (x, y) in own_edges)
+
+            if own_edges and fps and all(not vget(p.vec, "dec") and _gate_before_free(p) for p in fps) and any(F.handle_name(x) in ("Arc", "UniqueArc") for x in b.get("inputs", [])):
+                rep.ok("R-DESTROY", ik, "S3 in place", cfg=tag)
                 continue
             # S1: the body must be private and every caller must reach it only after a decrement that observed 1
             if balance.is_api(F, b):
